@@ -8,7 +8,7 @@ from .avals import *   # noqa
 from .avals import value_tags
 from . import seqops
 from .model import AnalysisError, norm_text
-from .signals import Raised, Returned, BreakSig, ContinueSig, LoopBack, Abandon
+from .signals import Raised, Returned, BreakSig, ContinueSig, LoopBack, Abandon, ConsumerSignal
 from .exprs import ExprMixin
 from .loops import LoopMixin
 from .calls import CallMixin
@@ -87,6 +87,18 @@ class Path:
 
     def __repr__(self):
         return f'<Path {self.outcome} {self.value!r} choices={self.choices}>'
+
+
+def _is_generator(fnode):
+    stack = list(fnode.body)
+    while stack:
+        n = stack.pop()
+        if isinstance(n, (ast.Yield, ast.YieldFrom)):
+            return True
+        if isinstance(n, (ast.FunctionDef, ast.Lambda, ast.ClassDef)):
+            continue
+        stack.extend(ast.iter_child_nodes(n))
+    return False
 
 
 class Frame:
@@ -317,6 +329,9 @@ class Interp(ExprMixin, LoopMixin, CallMixin):
         if summ is not None:
             self.event('call', node, callee=fi.short, args=args, kwargs=kwargs, summary=True, self_obj=self_obj)
             return summ(self, fi, args, kwargs, node, self_obj)
+        if not getattr(self, '_starting_generator', False) and _is_generator(fi.node):
+            return GenCallV(fi, args, kwargs, self_obj, cls_obj, closure)
+        self._starting_generator = False
         if len(self.frames) >= self.an.max_depth:
             raise Abandon(f'inlining depth bound at {fi.short}')
         if any(f.fi is fi and f.self_obj is self_obj for f in self.frames) and \
